@@ -406,6 +406,30 @@ def run(ctx):
             run.instance(R5, {"fn": "scan", "obligation": "the path given to set_acct_path is the restored parent path"}, held=h)
             if not h:
                 run.finding(Finding(R5, sc.id, "set_acct_path is not given the restored parent path", site=c.site_of(sc, b)))
+    R6 = "C16.R6"
+    run.rule(R6, "a repairing scan starts from refreshed records: scan::scan(delete_unconfirmed possibly true) is reached only after update_outputs(.., update_all = true) Ok", floor=2)
+    UO = c.LW + "api_impl::owner::update_outputs"
+    ncall = 0
+    for fid, f in sorted(db.fns.items()):
+        from ..callgraph import non_production as _np
+        if _np(fid):
+            continue
+        for b, t in cfg.find_calls(f, S + "scan"):
+            ncall += 1
+            du = vf.const_of_operand(f, t["a"][2])
+            if du == "0":
+                run.instance(R6, {"fn": pp.short(fid), "obligation": "delete_unconfirmed is the constant false here: nothing is deleted, no refresh precondition", "site": c.site_of(f, b)}, held=True)
+                continue
+            ups = [(ub, ut) for ub, ut in cfg.find_calls(f, UO) if vf.const_of_operand(f, ut["a"][2]) == "1"]
+            edges = set()
+            for ub, _ut in ups:
+                edges |= cfg.call_guard(f, ub).ok
+            held = bool(edges) and cfg.must_pass(f, edges, {b})[0]
+            run.instance(R6, {"fn": pp.short(fid), "obligation": "scan::scan is reached only through the Ok edge of update_outputs(.., true)", "site": c.site_of(f, b)}, held=held)
+            if not held:
+                run.finding(Finding(R6, fid, "a scan that may delete unconfirmed outputs runs on records that were not refreshed first (a mined but not yet refreshed output would be deleted)", site=c.site_of(f, b)))
+    if ncall < 2:
+        run.error("C16.R6: expected at least two callers of internal::scan::scan, found %d" % ncall)
     run.not_decided += [
         "completeness over chain histories ('exactly the outputs of the seed') - depends on range-proof rewinding and the node's paging",
         "equality of the restored totals with the original wallet",
